@@ -164,6 +164,7 @@ func Load(dir string, overlay map[string][]byte, patterns ...string) (*Prog, err
 			despill(fn)
 		}
 	}
+	p.loadFuncAliases()
 	p.loadClosureAliases()
 	for _, fn := range p.Funcs {
 		p.byName[FnString(fn)] = fn
